@@ -8,7 +8,7 @@ from vf.core import Part, Violation, call
 from vf.props import common
 
 PROPERTY = "C08"
-RULE = ("Parts 'shapes*': EXHAUSTIVE enumeration of every single threshold node (all values/signs) alone and inside every connective, "
+RULE = ("Part 'big_constants': ENUMERATED nodes that stay undecided next to a leaf fixed (by bounds or assume) at 32767..3*10^9 / -2^31-7, threshold = constant + 1, either sign, alone / under All / below a negation. Parts 'shapes*': EXHAUSTIVE enumeration of every single threshold node (all values/signs) alone and inside every connective, "
         "with one of its leaves fixed by bounds. Part 'reduce': Hypothesis generates validated model DAG specs with constant-bounds leaves ((k,k), boolean and integer) and pre-fixed "
         "sub-propositions, optionally followed by assume(D) (leaf ints and sub-proposition 0/1 values) x ALL interpretations "
         "of the still-free leaves (enumerated up to the guard, else drawn). Oracles: reduce() result, evaluated by the reference "
